@@ -625,9 +625,15 @@ func init() {
 	boolCanon := func(r *Result) []string { return []string{r.Aux, fmt.Sprint(r.Err != "")} }
 	genExtPairLists := func(g *Gen) ([]string, []string) {
 		hz, vz := g.zoom(1, 30), g.zoom(1, 30)
-		l1 := g.mixedList(hz, vz, g.n(5), 3)
+		n1, n2 := g.n(5), g.n(5)
+		if g.R.Chance(1, 10) {
+			// both lists long at once: a pair count above a few hundred is where an implementation
+			// would start to split the work
+			n1, n2 = 10+g.R.Intn(30), 10+g.R.Intn(30)
+		}
+		l1 := g.mixedList(hz, vz, n1, 3)
 		var l2 []string
-		if g.R.Chance(1, 2) {
+		if g.R.Chance(1, 2) && n1 < 10 {
 			// related to l1: ancestors / descendants / neighbours of its members
 			for _, id := range l1 {
 				a := parseInts(id)
@@ -639,7 +645,7 @@ func init() {
 				l2 = append(l2, extID(a[0]-dh, x, y, a[3]-dv, z))
 			}
 		} else {
-			l2 = g.mixedList(hz, vz, g.n(5), 3)
+			l2 = g.mixedList(hz, vz, n2, 3)
 		}
 		return l1, l2
 	}
